@@ -11,27 +11,82 @@ Routes: config file, environment variable `LIFTBRIDGE_TELEMETRY_ENABLED` (docume
 /repo/CHANGELOG.md:79-94), programmatic assignment to `Config.Telemetry.Enabled`.
 -/
 import Liftbridge.Model.TelemetryCfg
+import Liftbridge.Proofs.Telemetry
 
 namespace Liftbridge.Props.C19
-open Liftbridge Liftbridge.TelemetryCfg
+open Liftbridge Liftbridge.TelemetryTypes Liftbridge.TelemetryCfg
 
-/-! ### Switching off -/
+/-! ### Switching off
+
+`requests F c iv dir fs ticks`: configuration `c` (the three routes), `iv` =
+`Telemetry.IntervalSeconds` as `Server.Start` sees it (ANY integer: zero and negative
+included), `dir` = the data directory, `fs` = what the file system holds under each
+directory (id file readable / writable / …), `ticks` = expiries of the interval timer. -/
+
+/-- `telemetry.New` never turns a disabled non-nil config into an enabled one, for every
+shape of `New` all of whose blocks pass `rewriteKeepsOff` — whatever they do to the
+interval and the data directory. -/
+theorem new_keeps_off (F : Facts) (h : newKeepsOff F = true) (a : TCfg) (ha : a.enabled = false) :
+    ∃ c, newCfg F (some a) = some c ∧ c.enabled = false :=
+  Proofs.Telemetry.foldl_keepsOff F F.newSteps h a ha
+
+/-- Collector level (direct users of package telemetry, "programmatic config"): a collector
+built from a config with `Enabled: false` never makes a request — for every interval, data
+directory and file-system state — provided `New` keeps the switch and `Start` checks it. -/
+theorem collector_off_means_silent_of_shape (F : Facts) (hg : collectorGates F) (a : TCfg)
+    (fs : String → IdEnv) (ticks : Nat) (ha : a.enabled = false) :
+    collectorRequests F (some a) fs ticks = 0 := by
+  obtain ⟨hn, hst⟩ := hg
+  obtain ⟨c, hc, hoff⟩ := new_keeps_off F hn a ha
+  unfold collectorRequests newCollector
+  rw [hc]
+  simp only
+  split
+  · rfl
+  · rename_i k hk
+    split at hk
+    · cases hk
+    · cases hk
+      simp [collectorRuns, hst, hoff]
+
+/-- … and the code as it is now has that shape. -/
+theorem collector_off_means_silent (a : TCfg) (fs : String → IdEnv) (ticks : Nat)
+    (ha : a.enabled = false) : collectorRequests genFacts (some a) fs ticks = 0 :=
+  collector_off_means_silent_of_shape genFacts (by decide) a fs ticks ha
 
 /-- For every shape of the code with the server-side gate: a configuration that is not
-enabled never starts the reporting goroutine — no request, however many ticks pass. -/
-theorem disabled_means_no_request (F : Facts) (hs : serverGates F) (c : Cfg) (ticks : Nat)
-    (h : enabled F c = false) : requests F c ticks = 0 := by
-  unfold requests sends collectorCreated collectorFlag
-  rcases hs with hg | ⟨hc, hst⟩
+enabled never starts the reporting goroutine — no request, however many ticks pass, for
+EVERY interval (zero and negative included), data directory and file-system state. -/
+theorem disabled_means_no_request (F : Facts) (hs : serverGates F) (c : Cfg) (iv : Int)
+    (dir : String) (fs : String → IdEnv) (ticks : Nat)
+    (h : enabled F c = false) : requests F c iv dir fs ticks = 0 := by
+  unfold requests serverRequests serverCollector startArg
+  rcases hs with hg | ⟨ha, hcg⟩
   · simp [hg, h]
-  · simp [hc, hst, h]
+  · by_cases hg : F.createGuarded = true
+    · simp [hg, h]
+    · have hoff : srcEval F.argEnabled false F.dfltEnabled true = false := by
+        unfold argKeepsOff at ha
+        cases he : F.argEnabled <;> rw [he] at ha <;> simp_all [srcEval]
+      have hcol := collector_off_means_silent_of_shape F hcg
+        ⟨srcEval F.argEnabled false F.dfltEnabled true, iv * 1000000000, dir⟩ fs ticks hoff
+      unfold collectorRequests at hcol
+      simp only [h, Bool.not_false, Bool.and_true, hg]
+      exact hcol
 
-/-- Non-triviality of the model: an enabled configuration does report (one beacon plus one
-request per tick), for every shape of the code. -/
-theorem enabled_means_requests (F : Facts) (c : Cfg) (ticks : Nat) (h : enabled F c = true) :
-    requests F c ticks = 1 + ticks := by
-  unfold requests sends collectorCreated collectorFlag
-  simp [h]
+/-- Non-triviality of the model: when `New` leaves a non-nil config alone and `Server.Start`
+hands an enabled switch on, an enabled configuration with a positive interval whose
+instance id can be loaded or created does report (one beacon plus one request per tick). -/
+theorem enabled_means_requests (F : Facts) (hid : Proofs.Telemetry.onlyNilSteps F = true)
+    (harg : srcEval F.argEnabled true F.dfltEnabled true = true)
+    (c : Cfg) (iv : Int) (dir : String) (fs : String → IdEnv) (ticks : Nat)
+    (h : enabled F c = true) (hiv : 0 < iv) (hfs : idIsErr (loadOrCreate F (fs dir)) = false) :
+    requests F c iv dir fs ticks = 1 + ticks := by
+  have hpos : (0 : Int) < iv * 1000000000 := Int.mul_pos hiv (by decide)
+  unfold requests serverRequests serverCollector startArg newCollector
+  simp only [h, Bool.not_true, Bool.and_false, Bool.false_eq_true, if_false,
+    Proofs.Telemetry.newCfg_id F hid, harg, hfs]
+  simp [collectorRuns, runRequests, hpos]
 
 /-- When the code honours the environment route on both paths of `NewConfig`, the switch is
 exactly "programmatic, else environment, else config file, else default". -/
@@ -46,9 +101,10 @@ theorem enabled_spec (F : Facts) (he : envHonoured F) (c : Cfg) :
 
 /-- FULL STRENGTH, any shape: with the server-side gate and the environment route honoured,
 switching telemetry off by ANY route (the highest-precedence route that speaks says "off")
-means no request is ever made. -/
+means no request is ever made — for every interval, data directory and file-system state. -/
 theorem off_means_silent_of_shape (F : Facts) (hs : serverGates F) (he : envHonoured F)
-    (c : Cfg) (ticks : Nat) (h : effectiveOff c) : requests F c ticks = 0 := by
+    (c : Cfg) (iv : Int) (dir : String) (fs : String → IdEnv) (ticks : Nat) (h : effectiveOff c) :
+    requests F c iv dir fs ticks = 0 := by
   apply disabled_means_no_request F hs
   rw [enabled_spec F he]
   rcases h with h | ⟨h1, h2⟩ | ⟨h1, h2, h3, h4⟩
@@ -58,18 +114,24 @@ theorem off_means_silent_of_shape (F : Facts) (hs : serverGates F) (he : envHono
 
 /-- FULL STRENGTH, the code as it is now: every documented way of switching telemetry off —
 config file, `LIFTBRIDGE_TELEMETRY_ENABLED`, programmatic — with or without a config file,
-yields no request at all. (Does not check on a tree where the environment variable is
-ignored: see `env_route_prefix_defect`.) -/
-theorem off_means_silent (c : Cfg) (ticks : Nat) (h : effectiveOff c) :
-    requests genFacts c ticks = 0 :=
-  off_means_silent_of_shape genFacts (by decide) (by decide) c ticks h
+yields no request at all, for EVERY value of `telemetry.interval.seconds` (however it was
+set: file, environment, program; positive, zero or negative), every data directory and
+every state of the instance-id file. (Does not check on a tree where the environment
+variable is ignored — see `env_route_prefix_defect` — nor on one where `Server.Start` /
+`telemetry.New` / `Collector.Start` together lose the switch.) -/
+-- (On the current tree both disjuncts of `serverGates` hold — the collector is not created
+-- for a disabled server, and a collector handed `Enabled: false` would not report either;
+-- only the disjunction is an obligation, so that dropping ONE of the two gates is not flagged.)
+theorem off_means_silent (c : Cfg) (iv : Int) (dir : String) (fs : String → IdEnv) (ticks : Nat)
+    (h : effectiveOff c) : requests genFacts c iv dir fs ticks = 0 :=
+  off_means_silent_of_shape genFacts (by decide) (by decide) c iv dir fs ticks h
 
 /-- The strongest variant that holds for EVERY shape with the server-side gate, i.e. also
 on the tree before the repair: the excluded case is "the environment variable says
 anything" (`c.env = none` is the excluding hypothesis). -/
 theorem off_means_silent_partial (F : Facts) (hs : serverGates F) (hfp : F.fileParses = true)
-    (c : Cfg) (ticks : Nat) (henv : c.env = none) (h : effectiveOff c) :
-    requests F c ticks = 0 := by
+    (c : Cfg) (iv : Int) (dir : String) (fs : String → IdEnv) (ticks : Nat) (henv : c.env = none)
+    (h : effectiveOff c) : requests F c iv dir fs ticks = 0 := by
   apply disabled_means_no_request F hs
   unfold enabled afterNewConfig viperLookup
   rcases h with h | ⟨_, h2⟩ | ⟨h1, _, h3, h4⟩
@@ -81,17 +143,18 @@ theorem off_means_silent_partial (F : Facts) (hs : serverGates F) (hfp : F.fileP
 `LIFTBRIDGE_TELEMETRY_ENABLED=false` and nothing else said — telemetry still reports, with
 and without a config file. Replayed on the implementation by the harness
 (corpus/C19/env-false-ignored.ops). -/
-theorem env_route_prefix_defect (hasFile : Bool) (ticks : Nat) :
-    requests unfixedFacts ⟨none, some false, none, hasFile⟩ ticks = 1 + ticks := by
+theorem env_route_prefix_defect (hasFile : Bool) (iv : Int) (hiv : 0 < iv) (dir : String) (ticks : Nat) :
+    requests unfixedFacts ⟨none, some false, none, hasFile⟩ iv dir fsOk ticks = 1 + ticks := by
   cases hasFile <;>
-    exact enabled_means_requests unfixedFacts _ ticks (by decide)
+    exact enabled_means_requests unfixedFacts (by decide) (by decide) _ iv dir fsOk ticks (by decide) hiv
+      (by show idIsErr (loadOrCreate unfixedFacts ⟨true, none, true, true, false⟩) = false; decide)
 
 /-- The formula of DESIGN.md §4 read literally — "ANY route says off ⇒ silent" — is kept
 visible. It is stronger than the property: it ignores that routes can contradict each
 other. -/
 def off_means_silent_anyRoute_asStated : Prop :=
   ∀ (c : Cfg) (ticks : Nat), (c.file = some false ∨ c.env = some false ∨ c.prog = some false) →
-    requests genFacts c ticks = 0
+    requests genFacts c 1 "" fsOk ticks = 0
 
 /-- … and it is false on any tree: either the environment variable is ignored (first
 witness: only `env = false`), or it overrides the file as documented
@@ -102,6 +165,149 @@ theorem off_means_silent_anyRoute_asStated_false : ¬ off_means_silent_anyRoute_
   have h1 := h ⟨none, some false, none, true⟩ 0 (by decide)
   have h2 := h ⟨some false, some true, none, true⟩ 0 (by decide)
   revert h1 h2
+  decide
+
+/-! ### Origin of the instance id -/
+
+/-- For every shape of `loadOrCreateInstanceID` all of whose paths are `pathClean`, and
+every state of the data directory: the function returns an error, or the content of the
+id file (which was readable and non-empty), or the freshly generated random UUID
+(`crypto/rand` succeeded). It never returns anything else (host name, address, …). -/
+theorem instance_id_origin_of_shape (F : Facts) (h : idPathsClean F = true) (e : IdEnv) :
+    match loadOrCreate F e with
+    | .err => True
+    | .file => fileUsable F e = true
+    | .fresh => e.randOk = true
+    | .other _ => False := by
+  unfold loadOrCreate
+  cases hp : idPathTaken F e with
+  | none => trivial
+  | some p =>
+    obtain ⟨hmem, hall⟩ := Proofs.Telemetry.idPathTaken_spec F e p hp
+    have hclean : pathClean p = true := (List.all_eq_true.mp h) p hmem
+    unfold pathClean at hclean
+    simp only
+    cases ho : p.out with
+    | err => trivial
+    | file =>
+      rw [ho] at hclean
+      exact Proofs.Telemetry.any_isFileUsable F e p.conds hall hclean
+    | fresh =>
+      rw [ho] at hclean
+      exact Proofs.Telemetry.any_isOpOk F e .rand p.conds hall hclean
+    | other t =>
+      rw [ho] at hclean
+      exact absurd hclean (by simp)
+
+/-- … and the code as it is now has that shape. -/
+theorem instance_id_origin (e : IdEnv) :
+    match loadOrCreate genFacts e with
+    | .err => True
+    | .file => fileUsable genFacts e = true
+    | .fresh => e.randOk = true
+    | .other _ => False :=
+  instance_id_origin_of_shape genFacts (by decide) e
+
+/-- Every collector that exists carries an instance id that is the content of the id file
+of ITS data directory or a fresh random UUID — whatever `New` was given and whatever the
+file system holds. -/
+theorem collector_id_origin (arg : Option TCfg) (fs : String → IdEnv) (k : Collector)
+    (hk : newCollector genFacts arg fs = some k) :
+    (k.id = .file ∧ fileUsable genFacts (fs k.cfg.dataDir) = true) ∨
+    (k.id = .fresh ∧ (fs k.cfg.dataDir).randOk = true) := by
+  unfold newCollector at hk
+  cases hc : newCfg genFacts arg with
+  | none => rw [hc] at hk; cases hk
+  | some c =>
+    rw [hc] at hk
+    simp only at hk
+    have ho := instance_id_origin (fs c.dataDir)
+    cases hid : loadOrCreate genFacts (fs c.dataDir) with
+    | err => rw [hid] at hk; simp [idIsErr] at hk
+    | file =>
+      rw [hid] at hk ho
+      simp only [idIsErr, Bool.false_eq_true, if_false, Option.some.injEq] at hk
+      subst hk
+      exact Or.inl ⟨rfl, ho⟩
+    | fresh =>
+      rw [hid] at hk ho
+      simp only [idIsErr, Bool.false_eq_true, if_false, Option.some.injEq] at hk
+      subst hk
+      exact Or.inr ⟨rfl, ho⟩
+    | other t => rw [hid] at ho; exact absurd ho id
+
+/-- Stronger than C19 asks, true of the code as it is ("persistent per installation"): for
+every shape all of whose paths are `pathPersists`, a fresh UUID is only returned after it
+was written to the id file. -/
+theorem fresh_id_is_persisted_of_shape (F : Facts) (h : idPathsPersist F = true) (e : IdEnv) :
+    (match loadOrCreate F e with | .fresh => e.writeOk = true | _ => True) ∧ idPathsClean F = true := by
+  have hcl : idPathsClean F = true := by
+    unfold idPathsClean
+    rw [List.all_eq_true]
+    intro p hp
+    have := (List.all_eq_true.mp h) p hp
+    unfold pathPersists at this
+    simp only [Bool.and_eq_true] at this
+    exact this.1
+  refine ⟨?_, hcl⟩
+  unfold loadOrCreate
+  cases hp : idPathTaken F e with
+  | none => trivial
+  | some p =>
+    obtain ⟨hmem, hall⟩ := Proofs.Telemetry.idPathTaken_spec F e p hp
+    have hper : pathPersists p = true := (List.all_eq_true.mp h) p hmem
+    unfold pathPersists at hper
+    simp only [Bool.and_eq_true] at hper
+    simp only
+    cases ho : p.out with
+    | fresh =>
+      have h2 := hper.2
+      rw [ho] at h2
+      exact Proofs.Telemetry.any_isOpOk F e .write p.conds hall h2
+    | _ => trivial
+
+/-- When the instance id can neither be read nor persisted (in any directory), no collector
+exists and the server makes no request — enabled or not, for every interval: nothing is
+ever reported under an id that is not the persisted one. -/
+theorem unpersistable_means_silent_of_shape (F : Facts) (h : idPathsPersist F = true) (r : Run)
+    (fs : String → IdEnv) (ticks : Nat)
+    (hu : ∀ d, fileUsable F (fs d) = false ∧ (fs d).writeOk = false) :
+    serverCollector F r fs = none ∧ serverRequests F r fs ticks = 0 := by
+  have hnone : ∀ arg, newCollector F arg fs = none := by
+    intro arg
+    unfold newCollector
+    cases hc : newCfg F arg with
+    | none => rfl
+    | some c =>
+      obtain ⟨hw, hcl⟩ := fresh_id_is_persisted_of_shape F h (fs c.dataDir)
+      have ho := instance_id_origin_of_shape F hcl (fs c.dataDir)
+      obtain ⟨h1, h2⟩ := hu c.dataDir
+      simp only
+      cases hid : loadOrCreate F (fs c.dataDir) with
+      | err => simp [idIsErr]
+      | file => rw [hid] at ho; simp [h1] at ho
+      | fresh => rw [hid] at hw; simp [h2] at hw
+      | other t => rw [hid] at ho; exact absurd ho id
+  have hsc : serverCollector F r fs = none := by
+    unfold serverCollector
+    cases startArg F r with
+    | none => rfl
+    | some a => exact hnone (some a)
+  exact ⟨hsc, by unfold serverRequests; rw [hsc]⟩
+
+theorem unpersistable_means_silent (r : Run) (fs : String → IdEnv) (ticks : Nat)
+    (hu : ∀ d, fileUsable genFacts (fs d) = false ∧ (fs d).writeOk = false) :
+    serverCollector genFacts r fs = none ∧ serverRequests genFacts r fs ticks = 0 :=
+  unpersistable_means_silent_of_shape genFacts (by decide) r fs ticks hu
+
+/-- The collector's config is the `*Config` `New` was given and nothing else ever writes
+to it: `New` stores its parameter, no function of package telemetry assigns to / through a
+`config` field, `telemetry.Config` has exactly the three modelled fields, and
+`Server.Start` fills interval and data dir from the server configuration. -/
+theorem collector_config_shape :
+    Gen.Telemetry.newStoresParam = true ∧ Gen.Telemetry.configWriteSites = [] ∧
+    Gen.Telemetry.configFields = ["Enabled", "Interval", "DataDir"] ∧
+    Gen.Telemetry.startArgIntervalFromConfig = true ∧ Gen.Telemetry.startArgDataDirFromConfig = true := by
   decide
 
 /-- Telemetry is opt-out: when no route says anything the switch has its default value,
@@ -177,6 +383,17 @@ theorem single_entry_point :
 
 /-! ### Non-vacuity -/
 
+/-- Hand-written copy of the shape the code has at the time of writing. -/
+def shapeNow : Facts :=
+  { unfixedFacts with envReplacer := [('.', '_')], noFileParses := true, noFileEnv := true }
+-- harmless variations pass the gates: only the creation guard dropped (switch copied); an
+-- interval normalisation in `New` that leaves `Enabled` alone
+example : serverGates { shapeNow with createGuarded := false, argEnabled := .keep } := by decide
+example :
+    let F := { shapeNow with createGuarded := false, argEnabled := .keep,
+                             newSteps := shapeNow.newSteps ++ [⟨.interval .le 0, .keep, .lit 86400000000000, .keep⟩] }
+    serverGates F := by decide
+
 -- every disjunct of `effectiveOff` is inhabited
 example : effectiveOff ⟨none, none, some false, false⟩ := by decide
 example : effectiveOff ⟨none, some false, none, false⟩ := by decide
@@ -185,8 +402,34 @@ example : effectiveOff ⟨some false, none, none, true⟩ := by decide
 example : serverGates genFacts ∧ envHonoured genFacts := by decide
 example : serverGates unfixedFacts ∧ ¬ envHonoured unfixedFacts := by decide
 -- the model is not constantly silent
-example : requests genFacts ⟨none, none, none, false⟩ 3 = 4 := by decide
-example : requests genFacts ⟨some false, some true, none, true⟩ 0 = 1 := by decide
+example : requests genFacts ⟨none, none, none, false⟩ 1 "d" fsOk 3 = 4 := by decide
+example : requests genFacts ⟨some false, some true, none, true⟩ 86400 "d" fsOk 0 = 1 := by decide
+-- (the following examples are about the model's semantics, on a hand-written copy of the
+-- current shape, so that a harmless change of the code does not touch them)
+-- an enabled server with a non-positive interval sends the initial beacon (then the ticker panics)
+example : requests shapeNow ⟨none, none, none, false⟩ 0 "d" fsOk 7 = 1 := by decide
+-- a disabled one with the same interval sends nothing
+example : requests genFacts ⟨none, some false, none, false⟩ 0 "d" fsOk 7 = 0 := by decide
+-- a shape like "always create the collector; New replaces a config with a non-positive interval by
+-- DefaultConfig()" fails the gate, and the model then reports for a disabled configuration
+example :
+    let F := { shapeNow with createGuarded := false, argEnabled := .keep,
+                             newSteps := shapeNow.newSteps ++ [⟨.interval .le 0, .dflt, .dflt, .keep⟩] }
+    ¬ serverGates F ∧ requests F ⟨none, some false, none, false⟩ 0 "d" fsOk 2 = 3 ∧
+      requests F ⟨none, some false, none, false⟩ 5 "d" fsOk 2 = 0 := by decide
+-- the id: fresh on an empty directory, the file when it has content, error when the id can
+-- neither be read nor written, and the hypotheses of `unpersistable_means_silent` are satisfiable
+example : idIsErr (loadOrCreate genFacts ⟨true, none, true, false, true⟩) = true := by decide
+example : (match loadOrCreate genFacts ⟨true, none, true, true, false⟩ with | .fresh => true | _ => false) = true := by decide
+example : (match loadOrCreate genFacts ⟨true, some ['a'], true, false, false⟩ with | .file => true | _ => false) = true := by decide
+example : (match loadOrCreate genFacts ⟨true, some [], true, true, false⟩ with | .fresh => true | _ => false) = true := by decide
+example : ∀ d : String, fileUsable genFacts ((fun _ => (⟨true, none, true, false, false⟩ : IdEnv)) d) = false ∧
+    ((fun _ => (⟨true, none, true, false, false⟩ : IdEnv)) d).writeOk = false := by
+  intro d
+  show fileUsable genFacts ⟨true, none, true, false, false⟩ = false ∧ (⟨true, none, true, false, false⟩ : IdEnv).writeOk = false
+  decide
+-- a path that returns something else is not clean
+example : pathClean ⟨[.op .write false, .other "herr == nil" true], .other "host"⟩ = false := by decide
 example : castBool "0".toList = some false ∧ castBool "1".toList = some true ∧ castBool [] = none ∧
     castBool "off".toList = some false := by decide
 
